@@ -1,9 +1,15 @@
 #!/bin/sh
 # integrate.sh <Cnn>...  — merge builder branch(es) build-Cnn into main, regenerate the manifest, smoke-run.
+# evidence/ is written by the checks in /verif itself: on conflict our copy always wins.
 set -e
 cd "$(dirname "$0")"
 for id in "$@"; do
-  git merge --no-ff -q -m "merge build-$id" "build-$id" || { echo "MERGE CONFLICT for $id"; exit 1; }
+  if ! git merge --no-ff -q -m "merge build-$id" "build-$id" 2>/dev/null; then
+    for f in $(git diff --name-only --diff-filter=U); do
+      case "$f" in evidence/*) git checkout --ours -- "$f" 2>/dev/null || git rm -q --cached "$f"; git add "$f" 2>/dev/null || true;; *) echo "MERGE CONFLICT for $id in $f"; exit 1;; esac
+    done
+    git commit -qm "merge build-$id"
+  fi
 done
 ./mkmanifest.py
 ./setup.sh
